@@ -17,22 +17,27 @@ Streams (all randomness from random.Random(ctx.seed))
           operator object and once on a rebuilt one) at different points of the script.  Checked:
           np.random.get_state() before == after EVERY call (also when the call raises); the two calls return
           bit-identical bytes (every array, to_dense() of returned operators, info dicts); the script re-run
-          WITHOUT the cola calls yields bit-identical user draws.
+          WITHOUT the cola calls yields bit-identical user draws.  Exceptions are observations: every outcome is compared with
+          expected_exception(call), an exact predicate on the input / environment (class, message, before / after the draw).
   (iii)   Rademacher probes on diagonal operators (Diagonal, Dense holding a diagonal, Kronecker / sums of
           diagonals, ScalarMul): bit-exact main diagonal for dyadic data (and exactly one iteration), 1e-12
           relative for arbitrary doubles; plus the EXHAUSTIVE expectation: all 2^n sign patterns injected,
           integer operator, any offset k: the returned mean equals np.diag(A, k) exactly.
   (iv)    iterations <= max_iters, counted with an operator that counts its products, cross-checked with
           info['iterations'] - 1 (the info field counts evaluations of the loop condition).
-  (v)     sequential test of unbiasedness with a stated false-alarm probability (<= 1e-9 per run): the deviation of the
-          accumulated sum from iterations*bs*np.diag(A, k) against a Hoeffding (Rademacher) / sub-gamma (normal) martingale
-          bound built from the estimator's exact variance, valid for every stopping rule (Ville's maximal inequality);
-          a component beyond the first threshold is re-tested K times with fresh keys and 4x the samples and is a
-          VIOLATION only if it fails all K.  Operators AND keys come from ctx.seed.  Derivation: comment above stream_ztest.
+  (v)     sequential test of unbiasedness: the deviation of the accumulated sum from iterations*bs*np.diag(A, k) against the
+          thresholds sigma*sqrt(2*Ncap*x) + c*x built from the estimator's PROVED variance.  PROVED for the thresholds (Lean, fixed
+          number of columns): the Hoeffding level 2*exp(-x) for Rademacher probes (C17_tail_hoeffding_threshold) and the Chebyshev
+          level N*V/thr^2 for every probe law (C17_tail_chebyshev_sum / _mean), computed and recorded per component.  CONTRACT (not
+          a Lean theorem): the sub-gamma level 2*exp(-x) for normal probes and the maximal form of the bounds for the
+          data-dependent stopping rule (Ville), on which the stated false alarm <= 1e-9 per run rests.  A component beyond
+          the first threshold is re-tested K times with fresh keys and 4x the samples and is a VIOLATION only if it fails all K.
+          Operators AND keys come from ctx.seed.  See the comment above stream_ztest.
   (L)     Lean correspondence: integer operators and injected integer probe blocks; real mean must equal the
           model's diag_sum / (iters * bs) bit for bit; the model loop fed with the observed `err > tol`
-          decisions must make the same number of iterations, and the keys the real loop passes to randn must
-          be the sha256 chain next_key^t(key0).
+          decisions must make the same number of iterations (incl. two fixed cases with max_iters = 0, where the
+          model - C17_cap_clause_needed - and the real loop make exactly one), and the keys the real loop passes
+          to randn must be the sha256 chain next_key^t(key0).
   (T)     site trace: a transparent counting wrapper around np_fns.randn (and around np.random.default_rng for callers
           inside cola) records the source line of every caller during all streams; every observed line must be a site of
           the generated table, and the evidence lists per table entry (routine, site, file:line) whether it was executed.
@@ -41,10 +46,12 @@ Streams (all randomness from random.Random(ctx.seed))
 """
 import hashlib
 import importlib
+import importlib.util
 import json
 import logging
 import os
 import random
+import re
 import sys
 import threading
 import time
@@ -59,16 +66,8 @@ MODULE = "ColaVerif.Properties.C17"
 DRIVER = "DriverC17.lean"
 MAX_VIOLATION_LINES = 5
 
-# Genuine deviations found by this check and not (yet) listed in /verif/known_findings.json.
-# PROVISIONAL: proposed entries, see the report; treated like known findings (exit 0 + KNOWN-FINDING line).
-PROVISIONAL_KNOWN = {
-    "capPositive": {
-        "property": "C17", "clause": "capPositive",
-        "call_site": "cola/linalg/trace/diagonal_estimation.py hutchinson_diag_estimate.cond "
-                     "((state[0] == 0) | ((state[0] < max_iters) & (err(state) > tol)))",
-        "what": "max_iters = 0: the loop condition forces a first iteration, the routine performs 1 > max_iters "
-                "iterations (one product with A). For max_iters >= 1 the cap holds (theorem C17_cap_partial)."},
-}
+# Recorded deviations (clause capPositive) are read from /verif/known_findings.json through common.known_clauses("C17") only;
+# there is no provisional list in this module.
 
 sys.path.insert(0, os.path.join(common.ROOT, "harness", "translators"))
 
@@ -104,6 +103,7 @@ def load_cola():
     L.svrg = importlib.import_module("cola.linalg.tbd.svrg")
     L.orig_randn = np_fns.randn
     L.orig_default_rng = np.random.default_rng
+    L.jax_missing = "jax" not in sys.modules and importlib.util.find_spec("jax") is None
 
     class DenseWithOps(cola.ops.Dense):
         """LOCAL SHIM (not cola's): `krylov_constraint_solve_upto_r` reads the backend from `C.ops`, an attribute no
@@ -540,6 +540,45 @@ def gen_call(rng, name=None):
     return {"routine": name, "op": op, "key": gen_key(rng) if keyed else None, "params": pgen(rng, n)}
 
 
+def expected_exception(call):
+    """EXACT prediction of how a call of the script stream ends on this image, as a decidable predicate on the INPUT (and on
+    the environment): None = must return; ("must", class, message regex, where) = must raise exactly this; ("may", ...) = the
+    routine's own data-dependent convergence assertion (it may return or raise exactly this).  `where`: "after" = at least one
+    draw site was executed before the exception (the draw log is compared), "before" = no draw was made."""
+    r, op, p = call["routine"], call["op"], call["params"]
+    if r in ("svrg_eigh_max", "svrg_solveh") and L.jax_missing:          # the draw precedes `import jax`
+        return ("must", "ModuleNotFoundError", r"^No module named 'jax'$", "after")
+    if r == "solve_svrg_rff" and not hasattr(L.cola.linalg, "eigs"):     # draw, then `cola.linalg.eigs` (does not exist)
+        return ("must", "AttributeError", r"^module 'cola\.linalg' has no attribute 'eigs'$", "after")
+    if r == "krylov_constraint_solve_upto_r":                            # its final `assert err < tol`
+        return ("may", "AssertionError", r"^Err \S+ failed to converge to tol \S+ in \d+ iterations$", "after")
+    if r == "diag(Hutch)" and op["kind"] == "kron" and p["k"] != 0:      # diag(Kronecker, k, alg): `assert k == 0`
+        return ("must", "AssertionError", r"^Need to verify correctness of rule for off diagonal case$", "before")
+    if r == "logdet(Lanczos,Hutch)" and op["kind"] == "kron" and any(m["kind"] == "dense" for m in op["Ms"]):
+        # logdet(PSD(Kronecker)) recurses into the factors, which do not carry the annotation: Lanczos refuses a plain Dense
+        return ("must", "AssertionError", r"^Lanczos only valid for SelfAdjoint", "before")
+    return None
+
+
+def exception_verdict(call, dg, exc):
+    """None when the outcome (return / exception class, message, position relative to the draws) is the predicted one,
+    else a text saying what was not predicted"""
+    exp = expected_exception(call)
+    ndraws = int(dg.rsplit("#", 1)[1])
+    if exc is None:
+        return None if (exp is None or exp[0] == "may") else f"returned although {exp[1]} /{exp[2]}/ was predicted"
+    if exp is None:
+        return f"no exception predicted, got {exc[:160]}"
+    cls, _, msg = exc.partition(": ")
+    if cls != exp[1] or not re.search(exp[2], msg):
+        return f"predicted {exp[1]} /{exp[2]}/, got {exc[:160]}"
+    if exp[3] == "after" and ndraws == 0:
+        return f"{cls} predicted AFTER the draw, but no draw site was executed"
+    if exp[3] == "before" and ndraws != 0:
+        return f"{cls} predicted BEFORE any draw, but {ndraws} draws were made"
+    return None
+
+
 def do_call(call, A=None):
     """returns (digest or 'EXC:…', exception text)"""
     fn = ROUTINES[call["routine"]][0]
@@ -554,12 +593,15 @@ def do_call(call, A=None):
             res, exc = digest(out), None
         except Exception as ex:   # the state must be unchanged on this path as well
             res, exc = "EXC:" + type(ex).__name__, f"{type(ex).__name__}: {ex}"
+            exp = expected_exception(call)
+            if exp is not None and exp[1] == type(ex).__name__ and re.search(exp[2], str(ex)):
+                res += ":" + str(ex)     # a PREDICTED exception is compared with its full message (e.g. the residual it reports)
     finally:
         log = tr.calllog if tr is not None else []
         if tr is not None:
             tr.calllog = None
-    # determinism is judged on the returned bytes AND on the sequence of draws (site, key, sha1 of the drawn block):
-    # a routine that raises after its draw (svrg.*: `import jax`) is still compared on what it drew
+    # determinism is judged on the returned bytes / the exception AND on the sequence of draws (site, key, sha1 of the drawn
+    # block): a routine that raises after its draw (svrg.*: `import jax`) is still compared on what it drew
     return res + "|draws:" + hashlib.sha1(repr(log).encode()).hexdigest()[:16] + f"#{len(log)}", exc
 
 
@@ -681,6 +723,8 @@ class Stats:
         self.nontrivial = set()
         self.by_routine = {}
         self.exc = {}
+        self.exc_unpredicted = []
+        self.exc_unpredicted_n = 0
         self.samples = []
         self.interleavings = 0
         self.user_ops = 0
@@ -714,9 +758,21 @@ def stream_scripts(ctx, S, rng, nscripts, trace):
             r = call["routine"]
             S.by_routine[r] = S.by_routine.get(r, 0) + 2
             S.op_kinds[op_skel(call["op"]).split("(")[0].rstrip("0123456789")] = S.op_kinds.get(op_skel(call["op"]).split("(")[0].rstrip("0123456789"), 0) + 1
-            res = digs.get(i, [("", None)])
-            if res[0][1] is not None:
-                S.exc[r + " " + res[0][1].split(":")[0]] = S.exc.get(r + " " + res[0][1].split(":")[0], 0) + 1
+            # exceptions are observations: every outcome (of both occurrences) is compared with the exact prediction
+            unpredicted = False
+            for (dg_, exc_) in digs.get(i, []):
+                verdict = exception_verdict(call, dg_, exc_)
+                if exc_ is not None:
+                    ek = f"{r} {exc_.split(':')[0]} [{'predicted' if verdict is None else 'UNPREDICTED'}]"
+                    S.exc[ek] = S.exc.get(ek, 0) + 1
+                if verdict is not None:
+                    unpredicted = True
+                    S.exc_unpredicted_n += 1
+                    if len(S.exc_unpredicted) < 10:
+                        S.exc_unpredicted.append({"routine": r, "op": op_skel(call["op"]), "params": call["params"], "what": verdict})
+                    print(f"NOTE C17: outcome not predicted by expected_exception(): {r} on {op_skel(call['op'])} {call['params']}: {verdict}", flush=True)
+            if unpredicted:
+                drew[i] = 0      # such a call is not counted as a non-trivial case
             if len(S.samples) < 6 and rng.random() < 0.05:
                 S.samples.append({"routine": r, "op": op_skel(call["op"]), "key": call["key"], "params": call["params"]})
         # non-trivial: the call reached at least one draw site (wrapper count; lobpcg: unconditional local-generator site)
@@ -1026,7 +1082,23 @@ def stream_lean(ctx, S, rng, ncases, cov):
                 stops.append(bool(e > r["tol"]))
         if determined:
             loops.append({"id": "l" + c["id"], "kind": "loop", "max_iters": r["T"], "stops": stops, "real_iters": it, "call": r["call"]})
-    # extra loop cases incl. max_iters = 0
+    # max_iters = 0 (clause capPositive): the model loop makes exactly ONE iteration whatever `err > tol` says
+    # (C17_cap_clause_needed); the real loop is run on a fixed operator with injected blocks, once with a tolerance it misses
+    # and once with one it meets, and must make the model's number of iterations (fixed inputs: no draw from `rng`)
+    M0 = np.array([[2.0, 1.0, 0.0], [1.0, 3.0, 1.0], [0.0, 1.0, 4.0]])
+    B0 = np.array([[1.0, -2.0, 3.0], [2.0, 1.0, -1.0], [-1.0, 3.0, 2.0]])
+    for j, (tol0, stop0) in enumerate(((0.0011, True), (1.0e6, False))):
+        cnt_op0, cnt0 = counting(M0, M0.dtype)
+        (_m0, _info0), inj0 = with_injection([B0, B0], lambda: L.hutch.hutchinson_diag_estimate(
+            cnt_op0, k=0, tol=tol0, max_iters=0, rand="normal", key=7))
+        call0 = {"routine": "hutchinson_diag_estimate(injected integer probes)", "A": M0.tolist(), "k": 0, "key": 7,
+                 "params": {"tol": tol0, "max_iters": 0, "rand": "normal"}, "blocks": [B0.tolist(), B0.tolist()], "dtype": "float64"}
+        S.evals += 1
+        S.cases.add(common.canon({kk: call0[kk] for kk in ("A", "k", "params", "blocks", "dtype")}))
+        cov["loop_cases_max_iters_0"] = cov.get("loop_cases_max_iters_0", 0) + 1
+        if inj0.i != cnt0[0]:
+            report(ctx, S, {"kind": "iteration-count-mismatch", "call": call0, "detail": f"{cnt0[0]} products, {inj0.i} blocks drawn"})
+        loops.append({"id": f"lz{j}", "kind": "loop", "max_iters": 0, "stops": [stop0], "real_iters": cnt0[0], "call": call0})
     ans2 = oracle.run_driver([{kk: v for kk, v in l.items() if kk not in ("call", "real_iters")} for l in loops], driver=DRIVER, nproc=1 if len(loops) < 500 else 4)
     for l in loops:
         a = ans2.get(l["id"])
@@ -1039,40 +1111,36 @@ def stream_lean(ctx, S, rng, ncases, cov):
 
 
 # ------------------------------------------------------------------------------------------------
-# (v) sequential test of unbiasedness with a STATED false-alarm probability ---------------------------
+# (v) sequential test of unbiasedness ------------------------------------------------------------------
 #
-# Estimator.  One probe column c gives X_c = (A z_c)[r] * z_c[s] for the component t (r = t + max(0,-k), s = t + max(0,k));
-# the routine returns the mean of the N = iterations * bs columns it drew.  With a_j = A[r, j], rho^2 = sum_{j != s} a_j^2:
-#   Rademacher  X_c - a_s = sum_{j != s} a_j eps_j,  eps_j = z_j z_s  i.i.d. uniform signs        Var = rho^2
-#   normal      X_c - a_s = a_s (g_s^2 - 1) + rho g_s h,  h ~ N(0,1) independent of g_s
-#                         = l+ (u^2 - 1) + l- (v^2 - 1),  u, v i.i.d. N(0,1),  l+- = (a_s +- sqrt(a_s^2 + rho^2)) / 2
-#                                                                                                   Var = rho^2 + 2 a_s^2
-# (both variances are PROVED: theorems C17_variance_sign_gaussian / C17_variance_rademacher / C17_variance_gaussian).
-# Tail bound, RIGOROUS for the ideal i.i.d. law (no normal approximation).  S_i = sum over the first i blocks of
-# (X_c - a_s) is a martingale in i with independent increments whose log-moment-generating function per column is
-#   Rademacher  psi(theta) <= theta^2 rho^2 / 2                         (Hoeffding's lemma: cosh x <= exp(x^2/2))
-#   normal      psi(theta) <= (sigma^2/2) theta^2 / (1 - c theta),  sigma^2 = 2(l+^2 + l-^2) = Var,  c = 2 max|l+-| = |a_s| + sqrt(a_s^2 + rho^2)
-#               (-y - log(1-2y)/2 <= y^2/(1-2y) for 0 <= y < 1/2 and <= y^2 for y < 0: Laurent-Massart 2000, Lemma 1;
-#                sub-gamma, Boucheron-Lugosi-Massart, Concentration Inequalities, sect. 2.4)
-# exp(theta S_i - i bs psi(theta)) is a non-negative martingale started at 1, so by Ville's / Doob's maximal inequality,
-# with psi >= 0 and optimising theta as usual, for EVERY stopping rule tau <= Nmax blocks (the routine's
-# `err(state) > tol` rule included - no optional-stopping caveat):
-#     P( |S_tau| >= sigma sqrt(2 Nmax bs x) + c x )  <=  2 exp(-x)        (c = 0 for Rademacher).
-# The statistic is therefore the deviation of the SUM, |mean - true| * tau * bs, against the bound at the CAP Nmax = max_iters
-# (when the loop runs to the cap - the rule for tol = 0.0011 - this is |z| >= sqrt(2x) (+ c x / (sigma sqrt(N))), z the usual
-# z-score with the exact standard error).  Rounding: float64 sums of <= 1e5 terms, relative error < 1e-11, covered by SLACK.
-# Caveat that remains: the bound is for independent N(0,1) draws; NumPy's MT19937 seeded with sha256-derived keys is taken
-# to deliver them (trusted base), fresh keys = independent samples.
+# Statistic.  Column c gives X_c = estimator[t, c]; the routine returns the mean of the N = iterations * bs columns it drew.
+# The test looks at the deviation of the SUM, dev = |mean - np.diag(A, k)[t]| * N = |S_N - N * diag_k[t]|, per component t.
+# PROVED in Lean for the modelled estimator under the i.i.d. probe law (Properties/C17.lean; Lemmas/RngTail.lean, RngHoeffding.lean):
+#   C17_variance_gaussian / _sign_gaussian / _rademacher   Var X_c = V = rho^2 (+ 2 a_s^2 for normal probes), rho^2 = sum_{q != s} A[r,q]^2
+#   C17_columns_independent, C17_variance_sum_iid          the columns of a block are independent; E (S_N - N d)^2 = N V
+#   C17_tail_chebyshev_sum (bs := N)                       P(|S_N - N d| >= thr) <= N V / thr^2                 every probe law, FIXED N
+#   C17_tail_hoeffding_sign / _threshold (bs := N)         P(|S_N - N d| >= thr) <= 2 exp(-thr^2 / (2 N rho^2))  Rademacher (sign) probes, FIXED N
+#   C17_tail_chebyshev_mean                                P(|mean - d| >= delta) <= V / (N delta^2)
+# Thresholds (unchanged since round 2; a right check is never loosened):
+#     thr(x) = sigma sqrt(2 Ncap x) + c x,   sigma^2 = V,   c = 0 (Rademacher) | |a_s| + sqrt(a_s^2 + rho^2) (normal).
+# What Lean certifies about them, for every FIXED number N <= Ncap of independent columns:
+#   Rademacher   thr(x) >= sqrt(2 N rho^2 x), hence P(|S_N - N d| >= thr(x)) <= 2 exp(-x)  - exactly the level the procedure states
+#                (C17_tail_hoeffding_threshold; Hoeffding's lemma + independence, no normal approximation);
+#   normal       only the Chebyshev level Ncap V / thr(x)^2 (about 1/(2x)); the sub-gamma level 2 exp(-x) (Laurent-Massart bound for
+#                the log-mgf of a_s (g_s^2 - 1) + rho g_s h) is a CONTRACT.
+# CONTRACTS for both probe kinds (not Lean theorems): the maximal form of the bounds, valid for the routine's data-dependent
+# `err(state) > tol` stopping rule (Ville's inequality for the exponential supermartingale); independence of the blocks drawn under
+# different keys (in the theorems several iterations are ONE block of N = iterations*bs columns); MT19937 after seed(key) delivering
+# i.i.d. N(0,1) at all.  The proved level of every threshold actually used is COMPUTED and recorded (`lean_certified_*`,
+# `chebyshev_*`, `hoeffding_*` in the evidence; `ztest_chebyshev_false_alarm_max`).
+# Rounding: float64 sums of <= 1e5 terms, relative error < 1e-11, covered by SLACK.
 #
-# Procedure.  Stage 1: every component of every case, threshold exponent X1.  A component that exceeds it is re-tested
-# K times with FRESH keys and REP_FACTOR times the cap; VIOLATION iff it exceeds the threshold with exponent X2 in ALL K
-# replications (a genuine bias b is persistent: the replications see it with REP_FACTOR^(1/2) times the signal-to-noise).
-# False alarm (union bound over the C components of stage 1, independence of the replications):
-#     P(any VIOLATION on an unbiased estimator) <= C * 2 exp(-X1) * (2 exp(-X2))^K <= ALPHA,   K chosen accordingly.
-# Power (same inequality, one-sided): a component whose expectation is off by b >= (sqrt(2 X1) + d) se1, se1 = sigma/sqrt(Nmax bs)
-# (normal probes: + c X1/(Nmax bs)), is flagged at stage 1 with probability >= 1 - exp(-d^2/2) and then fails each replication
-# with probability >= 1 - exp(-(sqrt(REP_FACTOR)(sqrt(2 X1) + d) - sqrt(2 X2))^2 / 2); for d = 4.5: >= 1 - 5e-5 overall.
-# The previous test (single shot, |z| > 6, fixed seed set) is implied for every persistent bias: 6 > sqrt(2 X1) = 3.46.
+# Procedure.  Stage 1: every component of every case, thr(X1).  A component beyond it is re-tested K times with FRESH keys and
+# REP_FACTOR times the cap; VIOLATION iff it exceeds thr(X2) in ALL K replications.  Under the contracts above
+#     P(any VIOLATION on an unbiased estimator) <= C * 2 exp(-X1) * (2 exp(-X2))^K <= ALPHA   (C components, K chosen accordingly);
+# under the PROVED inequalities alone (fixed N, independent replications)
+#     P(any VIOLATION) <= sum_components level1 * level2^K,  level = 2 exp(-x) (Rademacher) | Ncap V / thr(x)^2 <= 1/(2x) (normal)
+# (`lean_certified_stream_false_alarm`).
 Z_X1 = 6.0
 Z_X2 = 8.0
 Z_REP_FACTOR = 4
@@ -1119,7 +1187,7 @@ def z_eval(zc, key, cap, comps=None):
         dev = abs(float(m[t]) - float(true[t])) * it * bs
         slack = Z_SLACK * (abs(float(true[t])) + float(np.sqrt(var)) + 1e-300) * it * bs
         res.append({"t": t, "dev": dev, "var": var, "c": c, "cols": it * bs, "cols_cap": cap * bs, "slack": slack,
-                    "estimate": float(m[t]), "true": float(true[t]), "iterations": it})
+                    "estimate": float(m[t]), "true": float(true[t]), "iterations": it, "rand": rand})
     return res
 
 
@@ -1127,6 +1195,29 @@ def z_exceeds(cmp, x):
     if cmp["var"] == 0.0:      # exact estimator (all other entries of the row vanish, Rademacher): rounding only
         return not np.isclose(cmp["estimate"], cmp["true"], rtol=1e-12, atol=1e-14)
     return cmp["dev"] > z_bound(cmp["var"], cmp["c"], cmp["cols_cap"], x) + cmp["slack"]
+
+
+def z_chebyshev_level(cmp, x):
+    """PROVED false-alarm level of the threshold `z_exceeds(cmp, x)` uses: for every FIXED number N <= cols_cap of independent
+    columns, P(|S_N - N d| >= thr) <= N V / thr^2 <= cols_cap V / thr^2 (theorem C17_tail_chebyshev_sum with bs := N)"""
+    thr = z_bound(cmp["var"], cmp["c"], cmp["cols_cap"], x) + cmp["slack"]
+    return min(1.0, cmp["cols_cap"] * cmp["var"] / thr ** 2)
+
+
+def z_hoeffding_level(cmp, x):
+    """Rademacher probes only (V = rho^2): P(|S_N - N d| >= thr) <= 2 exp(-thr^2 / (2 N rho^2)) <= 2 exp(-thr^2 / (2 cols_cap rho^2))
+    for every FIXED N <= cols_cap (theorem C17_tail_hoeffding_sign with bs := N, law sign(N(0,1)) = the code path)"""
+    assert cmp["rand"] == "rademacher" and cmp["var"] > 0.0
+    thr = z_bound(cmp["var"], cmp["c"], cmp["cols_cap"], x) + cmp["slack"]
+    return min(1.0, 2.0 * float(np.exp(-thr ** 2 / (2.0 * cmp["cols_cap"] * cmp["var"]))))
+
+
+def z_certified_level(cmp, x):
+    """the best level PROVED in Lean for the threshold actually used (0 for an exact estimator: compared up to rounding)"""
+    if cmp["var"] == 0.0:
+        return 0.0
+    lv = z_chebyshev_level(cmp, x)
+    return min(lv, z_hoeffding_level(cmp, x)) if cmp["rand"] == "rademacher" else lv
 
 
 def z_score(cmp):
@@ -1155,7 +1246,9 @@ def z_confirm(rng, zc, t, K, log):
         cmp = z_eval(zc, key, Z_REP_FACTOR * zc["cap"], comps={t})[0]
         ex = z_exceeds(cmp, Z_X2)
         log.append({"key": key, "z": round(z_score(cmp), 3), "iterations": cmp["iterations"], "exceeds": bool(ex),
-                    "estimate": cmp["estimate"], "true": cmp["true"]})
+                    "estimate": cmp["estimate"], "true": cmp["true"],
+                    "chebyshev_level": (z_chebyshev_level(cmp, Z_X2) if cmp["var"] > 0.0 else 0.0),
+                    "lean_certified_level": z_certified_level(cmp, Z_X2)})
         if not ex:
             return False     # sequential: one agreement with the truth within the bound ends the re-test
         fails += 1
@@ -1172,6 +1265,9 @@ def stream_ztest(ctx, S, cov, ncases):
         K += 1
     zmax, comps, triggered, early, exact = 0.0, 0, [], 0, 0
     hist = {}
+    cheb1 = []       # Lean-certified (C17_tail_chebyshev_sum) false-alarm level of the stage-1 threshold actually used, per component
+    hoef1 = []       # ... (C17_tail_hoeffding_sign), Rademacher components
+    cert = []        # per component (best proved stage-1 level, proved bound on the stage-2 level)
     for zc in zcases:
         key = rng.randrange(0, 2**32)
         call = {"routine": "hutchinson_diag_estimate", "op": zc["op"], "key": key,
@@ -1188,6 +1284,12 @@ def stream_ztest(ctx, S, cov, ncases):
             zmax = max(zmax, z)
             hb = "inf" if z == float("inf") else str(min(int(z), 6))
             hist[hb] = hist.get(hb, 0) + 1
+            if cmp["var"] > 0.0:
+                cheb1.append(z_chebyshev_level(cmp, Z_X1))
+                if cmp["rand"] == "rademacher":
+                    hoef1.append(z_hoeffding_level(cmp, Z_X1))
+                # stage 2: thr >= sigma sqrt(2 N x2): Hoeffding level <= 2 exp(-x2) (Rademacher), Chebyshev level <= 1/(2 x2) (normal)
+                cert.append((z_certified_level(cmp, Z_X1), min(1.0 / (2.0 * Z_X2), p2) if cmp["rand"] == "rademacher" else 1.0 / (2.0 * Z_X2)))
             if z_exceeds(cmp, Z_X1):
                 triggered.append((zc, call, cmp))
     confirmed = 0
@@ -1198,8 +1300,8 @@ def stream_ztest(ctx, S, cov, ncases):
         log = []
         bad = z_confirm(rng, zc, cmp["t"], K, log)
         trig_log.append({"op": op_skel(zc["op"]), "k": zc["k"], "rand": zc["rand"], "component": cmp["t"],
-                         "stage1_z": round(z_score(cmp), 3), "replications": [{kk: e[kk] for kk in ("z", "exceeds")} for e in log],
-                         "confirmed": bool(bad)})
+                         "stage1_z": round(z_score(cmp), 3), "replications": [{kk: e[kk] for kk in ("z", "exceeds", "chebyshev_level")} for e in log],
+                         "replications_full": log, "confirmed": bool(bad)})
         if bad:
             confirmed += 1
             report(ctx, S, {"kind": "estimate-biased (sequential test)", "call": call, "ztest": {"case": zc, "component": cmp["t"], "K": K},
@@ -1207,16 +1309,42 @@ def stream_ztest(ctx, S, cov, ncases):
                                       f"(|z| = {z_score(cmp):.2f} > bound exponent {Z_X1}); all {K} replications with fresh keys and "
                                       f"{Z_REP_FACTOR}x the samples exceed the bound with exponent {Z_X2}: {log}; "
                                       f"false-alarm probability of the whole stream <= {Z_ALPHA}"})
+    cheb2 = [e["chebyshev_level"] for t_ in trig_log for e in t_["replications_full"]]
+    cert2 = [e["lean_certified_level"] for t_ in trig_log for e in t_["replications_full"]]
+    for t_ in trig_log:
+        del t_["replications_full"]
+    cheb_stream = min(1.0, float(sum(cheb1)) * (1.0 / (2.0 * Z_X2)) ** K)
+    cert_stream = min(1.0, float(sum(l1 * l2 ** K for l1, l2 in cert)))
     cov["ztest"] = {
         "cases": ncases, "components": comps, "components_exact_estimator": exact,
+        "proved_inequalities": "Properties/C17.lean, for a FIXED number N of independent probe columns: C17_tail_chebyshev_sum P(|S_N - N diag_k[t]| >= thr) "
+                               "<= N V / thr^2 (every probe law; C17_tail_chebyshev_mean is the same for the mean; from C17_variance_sum_iid, "
+                               "C17_columns_independent, C17_variance_*); C17_tail_hoeffding_sign / _threshold P(|S_N - N diag_k[t]| >= thr) <= "
+                               "2 exp(-thr^2 / (2 N rho^2)) (Rademacher probes as coded)",
+        "chebyshev_false_alarm_stage1_max": (float(max(cheb1)) if cheb1 else 0.0),
+        "chebyshev_false_alarm_stage1_min": (float(min(cheb1)) if cheb1 else 0.0),
+        "chebyshev_false_alarm_stage2_observed_max": (float(max(cheb2)) if cheb2 else None),
+        "chebyshev_false_alarm_stage2_bound": 1.0 / (2.0 * Z_X2),
+        "chebyshev_certified_stream_false_alarm": cheb_stream,
+        "hoeffding_components_rademacher": len(hoef1),
+        "hoeffding_false_alarm_stage1_max": (float(max(hoef1)) if hoef1 else 0.0),
+        "lean_certified_false_alarm_stage1_max": (float(max(l1 for l1, _ in cert)) if cert else 0.0),
+        "lean_certified_false_alarm_stage1_max_rademacher": (float(max(hoef1)) if hoef1 else 0.0),
+        "lean_certified_false_alarm_stage2_observed_max": (float(max(cert2)) if cert2 else None),
+        "lean_certified_stream_false_alarm": cert_stream,
+        "contract_not_proved": "the sub-gamma level 2 exp(-x) of the NORMAL-probe thresholds; for both probe kinds the maximal form of the bounds for the "
+                               "data-dependent stopping rule (Ville), independence of blocks drawn under different keys, MT19937 + seed(key) delivering "
+                               "i.i.d. N(0,1); `false_alarm_stated` and `false_alarm_bound_this_run` rest on these",
         "stage1_exponent_x1": Z_X1, "stage1_threshold_z_rademacher": round(float(np.sqrt(2 * Z_X1)), 4),
         "stage1_threshold_normal": "sqrt(2 x1) + c x1 / (sigma sqrt(N bs)),  c = |a_s| + sqrt(a_s^2 + rho^2)",
         "stage2_exponent_x2": Z_X2, "stage2_threshold_z_rademacher": round(float(np.sqrt(2 * Z_X2)), 4),
         "replications_K": K, "replication_sample_factor": Z_REP_FACTOR,
         "per_component_bound_stage1": float(p1), "per_replication_bound": float(p2),
         "false_alarm_bound_this_run": float(C * p1 * p2 ** K), "false_alarm_stated": Z_ALPHA,
-        "bound": "P(|S_tau| >= sigma sqrt(2 Nmax bs x) + c x) <= 2 exp(-x) for every stopping rule tau <= Nmax "
-                 "(Hoeffding / sub-gamma martingale bound with Ville's maximal inequality; exact variances); union bound over components",
+        "bound": "thresholds thr(x) = sigma sqrt(2 Nmax bs x) + c x with the PROVED variances; PROVED for every FIXED number of columns <= the cap: "
+                 "P(|S_N| >= thr(x)) <= 2 exp(-x) for Rademacher probes (C17_tail_hoeffding_threshold), the Chebyshev levels above for normal probes; "
+                 "CONTRACT: the same level 2 exp(-x) for normal probes (sub-gamma) and for every stopping rule tau <= Nmax (Ville's maximal "
+                 "inequality); union bound over components",
         "power": "a component whose expectation is off by >= (sqrt(2 x1) + 4.5) = 7.96 stage-1 standard errors (se1 = sigma/sqrt(max_iters*bs), "
                  "about sigma/49; normal probes: + c x1/(max_iters*bs)) in a case that runs to the cap (tol = 0.0011, 80 % of the cases) is reported "
                  "as VIOLATION with probability >= 1 - 5e-5 (same inequality, one-sided)",
@@ -1227,6 +1355,7 @@ def stream_ztest(ctx, S, cov, ncases):
         "seed_set": f"random.Random('C17-sequential-{ctx.seed}'): operators, offsets, probe kinds, tolerances AND keys depend on VERIF_SEED",
     }
     cov["ztest_max_abs_z"] = cov["ztest"]["max_abs_z_stage1"]
+    cov["ztest_chebyshev_false_alarm_max"] = cov["ztest"]["chebyshev_false_alarm_stage1_max"]
 
 
 # ------------------------------------------------------------------------------------------------
@@ -1362,7 +1491,8 @@ def run(ctx):
         "distinct_nontrivial": len(S.nontrivial),
         "rule": "a case is non-trivial when the call executed at least one random-draw site (counted by a transparent wrapper "
                 "around np_fns.randn; lobpcg: its local-generator site is unconditional) while the global state had been perturbed by "
-                "user draws (routines of cola/linalg/tbd that raise after their draw count: the draw sequence is what is compared); "
+                "user draws and ended the way expected_exception(call) predicts (routines of cola/linalg/tbd that raise after their draw count: the exception "
+                "and the draw sequence are what is compared); "
                 "Lean-correspondence cases additionally need k != 0 or more than one iteration; exhaustive cases must have consumed all 2^n blocks",
         "samples": S.samples,
         "routines_covered": S.by_routine,
@@ -1381,6 +1511,13 @@ def run(ctx):
         },
         "dynamic_local_generator_sites": trace.local_sites,
         "exceptions_seen": S.exc,
+        "exceptions_rule": "every call outcome is compared with expected_exception(call), an exact predicate on the input/environment: class, message "
+                           "regex and position relative to the draws (svrg_*: ModuleNotFoundError 'jax' / AttributeError cola.linalg.eigs AFTER the draw; "
+                           "krylov_constraint_solve_upto_r: its own convergence assertion AFTER the draws; diag(Kronecker, k != 0) and "
+                           "logdet(PSD(Kronecker with a Dense factor)): AssertionError BEFORE any draw); predicted exceptions are compared between the two "
+                           "occurrences with their full message; state-unchanged is checked on every path",
+        "exceptions_unpredicted": S.exc_unpredicted_n,
+        "exceptions_unpredicted_first": S.exc_unpredicted,
         "operator_kinds": S.op_kinds,
         "interleavings_tried": S.interleavings,
         "key_sensitivity_checked": S.key_checked,
@@ -1399,7 +1536,9 @@ def run(ctx):
         "streams": cov,
         "suppressed_violation_lines": S.suppressed,
         "timing_s": {"scripts": round(t1 - t0, 1), "diag+cap+exhaustive": round(t2 - t1, 1), "lean": round(t3 - t2, 1), "ztest": round(t4 - t3, 1)},
-        "provisional_known": list(PROVISIONAL_KNOWN),
+        # clauses this run excused that are NOT recorded in known_findings.json (must be empty; computed, not declared)
+        "provisional_known": sorted(k[0] for k in ctx.known if k[0] not in common.known_clauses(ctx.prop)),
+        "known_clauses_recorded": sorted(common.known_clauses(ctx.prop)),
         "trusted_base_extra": [
             "numpy.random legacy global generator: get_state/set_state round-trip the full state, seed(key) determines it (modelled abstractly as Gen.seed / Gen.draw)",
             "harness/translators/scan_rng_sites.py (AST scan; cross-checked dynamically: every observed caller of np_fns.randn / np.random.default_rng "
@@ -1409,20 +1548,31 @@ def run(ctx):
     }
     assumptions = [
         "IEEE rounding is outside the theorems; Rademacher-on-diagonal is bit-exact only for dyadic data (sums of equal doubles round), 1e-12 otherwise",
-        "unbiasedness is proved for the per-probe estimator and for a FIXED number of iterations; the data-dependent stopping rule (optional stopping) "
-        "is covered by the sequential test only (its bound is a maximal inequality and holds for every stopping rule; false alarm <= 1e-9 per run)",
+        "unbiasedness, the variance N V of the accumulated sum, Chebyshev's inequality P(|S_N - N diag_k| >= thr) <= N V / thr^2 (every probe law: "
+        "C17_tail_chebyshev_sum / _mean, C17_variance_sum_iid, C17_columns_independent) and Hoeffding's inequality P(|S_N - N diag_k| >= thr) <= "
+        "2 exp(-thr^2 / (2 N rho^2)) (Rademacher probes as coded: C17_tail_hoeffding_sign / _threshold / _sign_gaussian) are PROVED for a FIXED number N of "
+        "independent probe columns; the data-dependent stopping rule (optional stopping) is covered by the sequential test only",
+        "sequential test: thresholds sigma sqrt(2 N x) + c x (unchanged).  For Rademacher probes the level 2 exp(-x) of each threshold is the PROVED "
+        "Hoeffding bound (fixed N); for normal probes only the Chebyshev level is proved and the sub-gamma level 2 exp(-x) is a CONTRACT; for both, the "
+        "maximal form that covers the stopping rule (Ville) and hence the stated false alarm <= 1e-9 per run are a CONTRACT (textbook inequalities, "
+        "not Lean theorems), and so is the independence of blocks drawn under different keys (several iterations = ONE block of iterations*bs "
+        "columns in the theorems).  The proved level of every threshold actually used is computed and recorded (streams.ztest.lean_certified_*, "
+        "chebyshev_*, hoeffding_*)",
         "probe laws are PROVED instances of one structure (StdEntry, Lemmas/RngLaw.lean): i.i.d. standard normal entries = Mathlib's gaussianReal 0 1 "
         "under Measure.pi (C17_unbiased_gaussian; the former hypothesis GaussianSecondMoments is theorem C17_gaussian_second_moments, from "
         "integral_id_gaussianReal, variance_id_gaussianReal, memLp_id_gaussianReal, iIndepFun_pi), sign of a standard normal as coded incl. sign(0) = 0 "
         "(C17_unbiased_sign_gaussian; gaussianReal_map_neg, nullSingletonClass_gaussianReal), two-point law (C17_unbiased_rademacher_measure). CONTRACT that "
         "remains: np.random.randn after np.random.seed(key) delivers independent N(0,1) variates (a pseudo-random generator; the sequential test's "
         "bounds are for the ideal law, distinct keys = independent samples)",
-        "capPositive: max_iters >= 1 (max_iters = 0 makes one iteration; PROVISIONAL known finding)",
+        "capPositive: max_iters >= 1 (recorded in known_findings.json; max_iters = 0 makes exactly one iteration = one product with A, as the model "
+        "loop predicts - theorem C17_cap_clause_needed - and as the two max_iters = 0 loop cases of the Lean stream observe; excused only when "
+        "max_iters == 0 and the product count is exactly 1)",
         "keys are integers in [0, 2^32 - 1] (numpy's seed domain); other keys raise ValueError before the state is touched (checked)",
         "exceptions raised INSIDE np_fns.randn after np.random.seed(key) (e.g. negative shapes) would leave the state seeded; not reachable through the routines with valid operators",
     ]
     common.write_evidence(ctx, gate, coverage, assumptions)
     print(f"C17 {ctx.tier} seed={ctx.seed}: {S.evals} evaluations, {len(S.nontrivial)} distinct non-trivial, {S.interleavings} interleavings, "
           f"{len(trace.sites)} dynamic sites (all in table: {not unknown}), z max {cov.get('ztest_max_abs_z')}, "
+          f"unpredicted outcomes {S.exc_unpredicted_n}, "
           f"gate {'ok ' + str(gate['discharged']) + '/' + str(gate['obligations']) if gate else 'FAILED'}, "
           f"violations {len(ctx.violations)}, wall {ctx.wall():.1f}s", flush=True)
